@@ -42,6 +42,33 @@ def build_independence(chk):
                               'build drops the modification' % (name or 'a variable'))
     chk.rule('A0', 'build independence: no state change inside assert() in the analysed functions', 0)
     chk.ok('A0', '', 'functions scanned for state changes inside assert(): %d' % n)
+    # rule A1, same scope: no function-local static whose initialiser uses a parameter, a local or the object.  Such
+    # a variable is computed by whichever object / caller comes first in the process and then served to all others -
+    # every property here speaks about each object (handler, log file set, text block, ...) on its own
+    n_static = 0
+    seen_decl = set()
+    for prog in facts.LOADED:
+        for f in prog.functions:
+            if f.body is None or not f.file.startswith(REPO) or '/test/' in f.file:
+                continue
+            for x in f.walk():
+                for d in (x.get('decls', []) if x.get('k') == 'DeclStmt' else []):
+                    if not d.get('static') or (f.file, x.get('l'), d.get('name')) in seen_decl:
+                        continue
+                    seen_decl.add((f.file, x.get('l'), d.get('name')))
+                    n_static += 1
+                    deps = set()
+                    if isinstance(d.get('init'), dict):
+                        for y in walk(d['init']):
+                            if y.get('k') == 'CXXThisExpr':
+                                deps.add('this')
+                            elif y.get('k') == 'DeclRefExpr' and y.get('ref', {}).get('sto') in ('param', 'local'):
+                                deps.add(y['ref'].get('name'))
+                    chk.check(not deps, 'A1', f.name, 'function-local static %s is not computed from the data of the '
+                              'first caller' % d.get('name'), f.loc(x), 'its initialiser uses %s: every later object / '
+                              'call gets the value computed for the first one' % ', '.join(sorted(deps)))
+    chk.rule('A1', 'no function-local static initialised from per-call data in the analysed functions', 0)
+    chk.ok('A1', '', 'function-local statics scanned: %d' % n_static)
 
 
 def main():
